@@ -144,3 +144,26 @@ Example search_exact_hypotheses_hold :
   run ex_sn copts_plain (flatq [(0, t_ab)] [(0, t_ba); (0, t_cab)] [(0, [122])] 1) = Ok [0; 2; 3].
 Proof. exact search_exact_flat_example. Qed.
 Print Assumptions search_exact_hypotheses_hold.
+
+(* searcher_spec at the level of call scripts (DESIGN.md C07: "any interleaving of Next and
+   Advance n returns, in strictly increasing order, exactly the docs not yet passed; Advance n
+   the least one >= n").  script_ok S lo ops outs spells the expected answers out; the discipline:
+   an Advance target lies at or above the watermark (above the last number returned, not below an
+   earlier target).  Proved for a term searcher, a conjunction of term searchers and a slice
+   disjunction of term searchers (any min) over any well-formed snapshot; the script may run until
+   the end is reported.  Full statement: the same for every compiled searcher tree (scripts
+   starting with Next). *)
+Theorem searcher_spec_partial :
+  (forall sn f t lf fuel ops outs,
+     wf_sn sn -> script_ok (term_S sn f t) 0 ops outs ->
+     run_script lf (S fuel) (term_searcher sn copts_default f t) ops = Ok outs) /\
+  (forall sn l lf fuel ops outs,
+     wf_sn sn -> l <> [] -> fuel_ok sn (length l) lf ->
+     script_ok (conj_S (tdenots sn l)) 0 ops outs ->
+     run_script lf (S (S fuel)) (mk_conj (tsearchers sn l)) ops = Ok outs) /\
+  (forall sn l k lf fuel ops outs,
+     wf_sn sn -> fuel_ok sn O lf ->
+     script_ok (disj_S (tdenots sn l) k) 0 ops outs ->
+     run_script lf (S (S fuel)) (mk_disj_slice (tsearchers sn l) k) ops = Ok outs).
+Proof. exact (conj term_searcher_script (conj conjunction_of_terms_script disjunction_of_terms_script)). Qed.
+Print Assumptions searcher_spec_partial.
